@@ -22,12 +22,15 @@ Ltac access_bound :=
 
 Lemma step_accesses_inside i count : 0 <= i -> 0 < count -> Forall (inside (i + 1)) (step_accesses i count).
 Proof.
-  intros Hi Hc. unfold step_accesses. repeat (apply Forall_cons || apply Forall_nil); access_bound.
+  intros Hi Hc. unfold step_accesses, step_first, step_once, step_per_tf. cbn [app]. repeat (apply Forall_cons || apply Forall_nil); access_bound.
 Qed.
+
+Lemma prep_inside : Forall (inside 1) prep_first.
+Proof. unfold prep_first. repeat (apply Forall_cons || apply Forall_nil); access_bound. Qed.
 
 Lemma fast_accesses_inside i step count : 0 <= i -> 0 < step -> 0 < count -> Forall (inside (i + step)) (fast_accesses i step count).
 Proof.
-  intros Hi Hs Hc. unfold fast_accesses. repeat (apply Forall_cons || apply Forall_nil); access_bound.
+  intros Hi Hs Hc. unfold fast_accesses, fast_once, fast_per_tf. cbn [app]. repeat (apply Forall_cons || apply Forall_nil); access_bound.
 Qed.
 
 (* ------------------------------------------------------------------ rows inside the prefix are the same rows *)
@@ -43,8 +46,14 @@ Lemma read_prefix (cs cs' : list Row) m a : firstn m cs = firstn m cs' -> inside
 Proof.
   intros Hp. destruct a as [[g lo] hi]. unfold inside, read. destruct g; [|reflexivity]. intros H. destruct (H eq_refl) as [Hlo Hhi].
   f_equal. unfold py_rows. destruct (0 <=? lo) eqn:E; [|lia].
+  destruct (Z_le_gt_dec (hi - lo) 0) as [Hn|Hn]; [replace (Z.to_nat (hi - lo)) with 0%nat by lia; reflexivity|].
   rewrite (firstn_skipn_prefix cs _ _ m) by lia. rewrite (firstn_skipn_prefix cs' _ _ m) by lia. rewrite Hp. reflexivity.
 Qed.
+
+Lemma flat_map_ext_in' {A B} (f g : A -> list B) l : (forall a, In a l -> f a = g a) -> flat_map f l = flat_map g l.
+Proof. induction l as [|x r IH]; intros H; cbn [flat_map]; [reflexivity|]. rewrite (H x) by (left; reflexivity). rewrite IH; [reflexivity|]. intros a Ha. apply H. right. exact Ha. Qed.
+Lemma map_ext_Forall {A B} (f g : A -> B) (P : A -> Prop) l : Forall P l -> (forall a, P a -> f a = g a) -> map f l = map g l.
+Proof. intros HF H. induction HF as [|a r Ha Hr IH]; cbn [map]; [reflexivity|]. rewrite (H a Ha), IH. reflexivity. Qed.
 
 Lemma firstn_le_prefix (cs cs' : list Row) m m' : (m' <= m)%nat -> firstn m cs = firstn m cs' -> firstn m' cs = firstn m' cs'.
 Proof.
@@ -57,6 +66,7 @@ Context {Row St : Type}.
 Variable counts : list Z.
 Hypothesis counts_pos : Forall (fun c => 0 < c) counts.
 Variable F : nat -> list (list (option (list Row))) -> St -> St.
+Variable P : list (option (list Row)) -> St.
 
 Definition same_prefix (m : nat) (css css' : list (list Row)) : Prop := Forall2 (fun cs cs' => firstn m cs = firstn m cs') css css'.
 
@@ -66,18 +76,29 @@ Proof. intros H Hp. induction Hp as [|cs cs' r r' Hx Hr IH]; constructor; [eappl
 Lemma reads_step_prefix css css' i : same_prefix (S i) css css' -> reads_step counts css i = reads_step counts css' i.
 Proof.
   intros Hp. unfold reads_step. induction Hp as [|cs cs' r r' Hx Hr IH]; cbn [map]; [reflexivity|]. f_equal; [|exact IH].
-  clear IH Hr. induction counts_pos as [|c l Hc Hl IHc]; cbn [flat_map]; [reflexivity|]. f_equal; [|exact IHc].
-  pose proof (step_accesses_inside (Z.of_nat i) c ltac:(lia) Hc) as Hin.
-  induction Hin as [|a al Ha Hal IHa]; cbn [map]; [reflexivity|]. f_equal; [|exact IHa].
+  clear IH Hr. apply flat_map_ext_in'. intros c Hin. assert (Hc : 0 < c) by (rewrite Forall_forall in counts_pos; apply counts_pos; exact Hin).
+  apply (map_ext_Forall _ _ _ _ (step_accesses_inside (Z.of_nat i) c ltac:(lia) Hc)). intros a Ha.
   apply (read_prefix cs cs' (S i)); [exact Hx|]. replace (Z.of_nat (S i)) with (Z.of_nat i + 1) by lia. exact Ha.
 Qed.
 
-(* the normal simulator: the state after the minutes 0..m-1 depends only on the first m rows of every input array *)
-Theorem step_simulator_no_lookahead css css' m s0 : same_prefix m css css' -> run_step counts F css m s0 = run_step counts F css' m s0.
+Lemma reads_prep_prefix css css' m : (1 <= m)%nat -> same_prefix m css css' -> reads_prep css = reads_prep css'.
 Proof.
-  unfold run_step. revert s0. induction m as [|m IH]; intros s0 Hp; [reflexivity|].
+  intros Hm Hp. unfold reads_prep. destruct Hp as [|cs cs' r r' Hx Hr]; [reflexivity|].
+  apply (map_ext_Forall _ _ _ _ prep_inside). intros a Ha. apply (read_prefix cs cs' 1); [eapply firstn_le_prefix; eassumption|exact Ha].
+Qed.
+
+Lemma fold_step_prefix css css' m : forall s0, same_prefix m css css' ->
+  fold_left (fun s i => F i (reads_step counts css i) s) (seq 0 m) s0 = fold_left (fun s i => F i (reads_step counts css' i) s) (seq 0 m) s0.
+Proof.
+  induction m as [|m IH]; intros s0 Hp; [reflexivity|].
   rewrite seq_S, !fold_left_app. cbn [fold_left Nat.add]. rewrite (IH s0) by (eapply same_prefix_le; [|exact Hp]; lia).
   rewrite (reads_step_prefix css css' m Hp). reflexivity.
+Qed.
+
+(* the normal simulator: the state after the minutes 0..m-1 depends only on the first m rows of every input array *)
+Theorem step_simulator_no_lookahead css css' m : (1 <= m)%nat -> same_prefix m css css' -> run_step counts F P css m = run_step counts F P css' m.
+Proof.
+  intros Hm Hp. unfold run_step. rewrite (reads_prep_prefix css css' m Hm Hp). apply fold_step_prefix. exact Hp.
 Qed.
 
 Variable step : Z.
@@ -86,18 +107,23 @@ Hypothesis step_pos : 0 < step.
 Lemma reads_fast_prefix css css' j : same_prefix (Z.to_nat ((Z.of_nat j + 1) * step)) css css' -> reads_fast counts step css j = reads_fast counts step css' j.
 Proof.
   intros Hp. unfold reads_fast. induction Hp as [|cs cs' r r' Hx Hr IH]; cbn [map]; [reflexivity|]. f_equal; [|exact IH].
-  clear IH Hr. induction counts_pos as [|c l Hc Hl IHc]; cbn [flat_map]; [reflexivity|]. f_equal; [|exact IHc].
-  pose proof (fast_accesses_inside (Z.of_nat j * step) step c ltac:(lia) step_pos Hc) as Hin.
-  induction Hin as [|a al Ha Hal IHa]; cbn [map]; [reflexivity|]. f_equal; [|exact IHa].
+  clear IH Hr. apply flat_map_ext_in'. intros c Hin. assert (Hc : 0 < c) by (rewrite Forall_forall in counts_pos; apply counts_pos; exact Hin).
+  apply (map_ext_Forall _ _ _ _ (fast_accesses_inside (Z.of_nat j * step) step c ltac:(lia) step_pos Hc)). intros a Ha.
   apply (read_prefix cs cs' _ a Hx). rewrite Z2Nat.id by lia. replace ((Z.of_nat j + 1) * step) with (Z.of_nat j * step + step) by lia. exact Ha.
 Qed.
 
-(* the fast simulator: the state after the chunks 0..k-1 depends only on the first k*step rows (t on a chunk boundary) *)
-Theorem fast_simulator_no_lookahead css css' k s0 : same_prefix (Z.to_nat (Z.of_nat k * step)) css css' ->
-  run_fast counts F step css k s0 = run_fast counts F step css' k s0.
+Lemma fold_fast_prefix css css' k : forall s0, same_prefix (Z.to_nat (Z.of_nat k * step)) css css' ->
+  fold_left (fun s j => F j (reads_fast counts step css j) s) (seq 0 k) s0 = fold_left (fun s j => F j (reads_fast counts step css' j) s) (seq 0 k) s0.
 Proof.
-  unfold run_fast. revert s0. induction k as [|k IH]; intros s0 Hp; [reflexivity|].
+  induction k as [|k IH]; intros s0 Hp; [reflexivity|].
   rewrite seq_S, !fold_left_app. cbn [fold_left Nat.add]. rewrite (IH s0) by (eapply same_prefix_le; [|exact Hp]; nia).
   rewrite (reads_fast_prefix css css' k); [reflexivity|]. eapply same_prefix_le; [|exact Hp]. apply Z2Nat.inj_le; nia.
+Qed.
+
+(* the fast simulator: the state after the chunks 0..k-1 depends only on the first k*step rows (t on a chunk boundary) *)
+Theorem fast_simulator_no_lookahead css css' k : (1 <= k)%nat -> same_prefix (Z.to_nat (Z.of_nat k * step)) css css' ->
+  run_fast counts F P step css k = run_fast counts F P step css' k.
+Proof.
+  intros Hk Hp. unfold run_fast. rewrite (reads_prep_prefix css css' (Z.to_nat (Z.of_nat k * step))); [apply fold_fast_prefix; exact Hp|nia|exact Hp].
 Qed.
 End NoLookahead.
